@@ -55,106 +55,12 @@ REGION_ID = {'F24': 'F24-v1-nondict-attribution', 'F50': 'F50-v1-typeddict-wraps
              'F51': 'F51-v1-tag-check-before-field', 'F54': 'F54-v1-toplevel-missingdata-no-class'}
 JUNK = [['N'], ['B', True], ['I', str(10 ** 30)], ['F', 'nan'], ['F', 'inf'], ['S', ''], ['L', []],
         ['L', [['I', '1'], ['I', '2'], ['I', '3']]], ['D', None, []], ['D', None, [[['S', 'zzz'], ['I', '1']]]],
-        ['S', 'junk'], ['I', '-7'], ['F', (1.5).hex()], ['L', [['S', 'x']]]]
+        ['S', 'junk'], ['I', '-7'], ['F', (1.5).hex()], ['L', [['S', 'x']]],
+        ['I', '0'], ['B', False], ['F', (0.0).hex()]]      # every falsy value of every JSON type is in the list
 KEY_CASES = [None, 'CAMEL', 'PASCAL', 'KEBAB', 'SNAKE', 'AUTO']
-TAG_KEY = '__tag__'
 
 
-# ---------------------------------------------------------------------------------- key spellings (reference)
-def _cap(w):
-    return w[0].upper() + w[1:]
-
-
-def spellings(name):
-    """documented spellings of a canonical snake_case field name"""
-    ws = name.split('_')
-    return {'SNAKE': name, 'CAMEL': ws[0] + ''.join(_cap(w) for w in ws[1:]), 'PASCAL': ''.join(_cap(w) for w in ws),
-            'KEBAB': '-'.join(ws), 'UKEBAB': '-'.join(_cap(w) for w in ws), 'USNAKE': '_'.join(_cap(w) for w in ws),
-            'SCREAMING': name.upper()}
-
-
-def doc_key(name, kc, r):
-    if kc is None:
-        return name
-    if kc == 'AUTO':
-        return spellings(name)[r.choice(['SNAKE', 'CAMEL', 'PASCAL', 'KEBAB'])]
-    return spellings(name)[kc]
-
-
-def field_of_key(cd, key):
-    """the field a document key was written for (any documented spelling)"""
-    for f in cd['fields']:
-        if key == f['name'] or key in spellings(f['name']).values():
-            return f
-    return None
-
-
-def maybe_accepted(name, kc, key):
-    if kc is None:
-        return key == name
-    if kc == 'AUTO':
-        return key == name or key in spellings(name).values()
-    return key == spellings(name)[kc]
-
-
-# ---------------------------------------------------------------------------------- reference wire format
-def _td_str(tok):
-    d, s, us = (int(x) for x in tok.split(','))
-    return str(datetime.timedelta(days=d, seconds=s, microseconds=us))
-
-
-def dump_doc(v, t, model, r):
-    """JSON document of a conforming value (transcribed from the documented wire encoding)"""
-    k = t['k']
-    kc = model.get('key_case')
-    if k == 'leaf':
-        l = t['l']
-        if v[0] == 'Y' or v[0] == 'A':
-            return ['S', base64.b64encode(bytes.fromhex(v[1])).decode()]
-        if v[0] == 'O':
-            tok = v[2]
-            if l == 'uuid':
-                return ['S', tok.replace('-', '')]
-            if l in ('decimal', 'path', 'date'):
-                return ['S', tok]
-            if l in ('time', 'datetime'):
-                return ['S', tok[:-6] + 'Z' if tok.endswith('+00:00') else tok]
-            if l == 'timedelta':
-                return ['S', _td_str(tok)]
-            if l.startswith('enum:'):
-                val = dict(G.ENUMS[l[5:]])[tok]
-                return ['I', str(val)] if isinstance(val, int) else ['S', val]
-        return v
-    if k == 'seq':
-        return ['L', [dump_doc(x, t['t'], model, r) for x in v[1]]]
-    if k == 'tuple':
-        return ['L', [dump_doc(x, tt, model, r) for x, tt in zip(v[1], t['ts'])]]
-    if k == 'dict':
-        return ['D', None, [[dump_doc(kk, t['kt'], model, r), dump_doc(x, t['vt'], model, r)] for kk, x in v[2]]]
-    if k == 'opt':
-        return v if v == ['N'] else dump_doc(v, t['t'], model, r)
-    if k == 'lit':
-        return v
-    if k == 'union':
-        if v[0] == 'C':          # tagged dataclass member
-            alt = [x for x in t['ts'] if x['k'] == 'data' and model['classes'][x['c']]['name'] == v[1]][0]
-            d = dump_doc(v, alt, model, r)
-            return ['D', None, [[['S', TAG_KEY], ['S', v[1]]]] + d[2]]
-        if v[0] == 'L':
-            alt = [x for x in t['ts'] if x['k'] == 'seq'][0]
-            return dump_doc(v, alt, model, r)
-        return v
-    if k == 'named':
-        return ['L', [dump_doc(x, tt, model, r) for x, (_, tt) in zip(v[2], model['named'][t['name']])]]
-    if k == 'typed':
-        d = model['typed'][t['name']]
-        tys = dict((key, tt) for key, tt in d['req'] + d['opt'])
-        return ['D', None, [[kk, dump_doc(x, tys[kk[1]], model, r)] for kk, x in v[2]]]
-    if k == 'data':
-        cd = model['classes'][t['c']]
-        tys = {f['name']: f['ty'] for f in cd['fields']}
-        return ['D', None, [[['S', doc_key(n, kc, r)], dump_doc(x, tys[n], model, r)] for n, x in v[2]]]
-    raise ValueError(k)
+from props.c02gen import spellings, doc_key, field_of_key, maybe_accepted, dump_doc, TAG_KEY
 
 
 # ---------------------------------------------------------------------------------- positions
@@ -202,7 +108,10 @@ def positions(t, doc, model, frames, path, out, depth, under_td=False, f50=False
             f = field_of_key(cd, kk[1])
             if f is None:
                 continue           # the tag key
-            positions(f['ty'], x, model, frames + [[cd['name'], f['name']]], path + [['val', i]], out, depth + 1,
+            sub = path + [['val', i]]
+            if f.get('path') and x[0] == 'D' and x[2]:
+                x, sub = x[2][0][1], sub + [['val', 0]]          # AliasPath('top.inner'): the value is one level down
+            positions(f['ty'], x, model, frames + [[cd['name'], f['name']]], sub, out, depth + 1,
                       under_td, f50 or under_td)
     if k == 'data':
         here['f50'] = f50 or under_td
@@ -289,17 +198,28 @@ def expectation(pos, junk, model):
             if not fr:
                 exp['region'] = 'F54'
         elif junk[0] != 'D':
-            exp = {'kinds': ['P'], 'cls': fr[0] if fr else cname, 'fld': fr[1] if fr else None, 'region': 'F24'}
+            # a non-dict value: a ParseError (never MissingData — that is for null only); the reference names the
+            # holder; F24 (open) is only about WHICH class/field is named: the class being built and its first field
+            exp = {'kinds': ['P'], 'cls': fr[0] if fr else cname, 'fld': fr[1] if fr else None, 'region': 'F24', 'f24_cls': cname}
         else:
-            exp = {'kinds': ['M'], 'cls': cname}
+            # a dict that is not a document of the class: required fields are missing (a required AliasPath
+            # field: ParseError naming it); its keys are unknown keys for a class with v1_on_unknown_key='RAISE'
+            cd = model['classes'][t['c']]
+            exp = {'kinds': ['M'], 'cls': cname, 'alts': []}
+            for f in cd['fields']:
+                if f.get('path') and f['default'] is None:
+                    exp['alts'].append({'kinds': ['P'], 'cls': cname, 'fld': f['name']})
+            if (cd.get('meta') or {}).get('v1_on_unknown_key') == 'RAISE' and junk[2]:
+                exp['alts'].append({'kinds': ['U'], 'cls': cname})
     elif fr is None:
         return None
     elif t['k'] == 'named':
         exp = {'kinds': ['P', 'D'], 'cls': fr[0], 'fld': fr[1], 'alt': {'kinds': ['M'], 'cls': G.nt_name(model, t['name'])}}
     else:
         exp = {'kinds': ['P', 'D'], 'cls': fr[0], 'fld': fr[1]}
-    if pos.get('f50') and not exp.get('region'):
+    if pos.get('f50'):          # below a TypedDict every inner error is replaced (open F50)
         exp['region'] = 'F50'
+        exp.pop('f24_cls', None)
     return exp
 
 
@@ -375,7 +295,7 @@ def has_data_union(m):
 
 def build_models(ctx):
     r = ctx.sub_rng('models')
-    n = 18 if ctx.tier == 'quick' else 36
+    n = 18 if ctx.tier == 'quick' else 54
     out = []
     for mi in range(1, n + 1):
         mb = C2.MB(mi)
@@ -387,7 +307,8 @@ def build_models(ctx):
             r.shuffle(fs)
             return fs
 
-        with_union = (mi % 3 == 0)
+        cat = ((mi - 1) // len(KEY_CASES)) % 3        # 0: inside the Gallina model; 1: tagged Unions; 2: declaration styles + nested-only Meta
+        with_union = (cat == 1)
         alt_idx = mb.cls([('other_str', leaf('str')), ('opt_num', leaf('int'), 'int0')], name='Alt%dE' % mi) if with_union else None
         d_idx = mb.cls(fields(r.choice([1, 2, 3]), []), name='Inner%dD' % mi)
         c_idx = mb.cls(fields(r.choice([1, 2]), [['my_dd', nest_ctx(r, data(d_idx), mb, alt_idx)]]), name='Mid%dC' % mi)
@@ -396,6 +317,23 @@ def build_models(ctx):
                                        [{'name': 'opt_num', 'ty': leaf('int'), 'default': 'int0'}]
         mb.m['classes'][d_idx]['fields'].append({'name': 'note', 'ty': leaf('str'), 'default': 'str0'})
         mb.m['classes'][0]['name'] = 'Root%dB' % mi
+        if cat == 2:
+            # declaration styles at depth >= 2: Alias / AliasPath fields, required and defaulted
+            for idx in (d_idx, c_idx):
+                fs = mb.m['classes'][idx]['fields']
+                req = [f for f in fs if f['default'] is None]
+                dfl = [f for f in fs if f['default'] is not None]
+                req += [{'name': 'code_val', 'ty': leaf('str'), 'default': None, 'path': 'meta_x.code_val'},
+                        {'name': 'num_val', 'ty': leaf('int'), 'default': None, 'alias': ['num', 'number_x']}]
+                dfl += [{'name': 'opt_path', 'ty': leaf('int'), 'default': 'int0', 'path': 'opts_x.dd'},
+                        {'name': 'ee_val', 'ty': leaf('str'), 'default': 'str0', 'alias': ['ee']}]
+                r.shuffle(req)
+                mb.m['classes'][idx]['fields'] = req + dfl
+            # Meta set on NESTED classes only (the root has none of it)
+            mb.m['classes'][d_idx]['meta'] = {'v1_on_unknown_key': r.choice(['RAISE', 'RAISE', 'WARN'])}
+            if r.random() < 0.5:
+                mb.m['classes'][c_idx]['meta'] = {'v1_on_unknown_key': r.choice(['RAISE', 'WARN'])}
+            mb.m['no_model'] = True
         if has_data_union(mb.m):
             mb.m['load_meta'] = {'auto_assign_tags': True}
             mb.m['no_model'] = True
@@ -433,8 +371,14 @@ def make_plan(ctx, mb, r):
     m['instances'] = []
     plan = []
     chosen = r.sample(ps, min(len(ps), 22 if quick else 30))
+    dps = [p for p in ps if p['ty']['k'] in ('data', 'opt') and p['path'] and p not in chosen]
+    chosen += r.sample(dps, min(len(dps), 4))       # dataclass-typed positions get the full junk matrix
     for pos in chosen:
-        for junk in (JUNK if not quick else r.sample(JUNK, 5)):
+        tt0 = pos['ty']
+        while tt0['k'] == 'opt':
+            tt0 = tt0['t']
+        at_data = tt0['k'] == 'data' or (tt0['k'] == 'union' and any(x['k'] == 'data' for x in tt0['ts']))
+        for junk in (JUNK if (not quick or at_data) else r.sample(JUNK, 5)):
             plan.append(('junk', pos, junk, expectation(pos, junk, m), mutate(doc, pos['path'], junk)))
         tt = pos['ty']
         while tt['k'] == 'opt':
@@ -458,16 +402,36 @@ def make_plan(ctx, mb, r):
             continue
         cd = m['classes'][tt['c']]
         reg = 'F50' if pos.get('f50') else None
+        raises = (cd.get('meta') or {}).get('v1_on_unknown_key') == 'RAISE'
         for i, (kk, _) in enumerate(cur[2]):
             f = field_of_key(cd, kk[1])
             if f is None:
                 continue
-            exp_m = {'kinds': ['M'], 'cls': cd['name'], 'names': [f['name']]}
+            # the field's value is absent: a required AliasPath field is a ParseError naming (class, field);
+            # any other required field a MissingFields naming the class and the field
+            if f.get('path'):
+                exp_m = {'kinds': ['P'], 'cls': cd['name'], 'fld': f['name']}
+            else:
+                exp_m = {'kinds': ['M'], 'cls': cd['name'], 'names': [f['name']]}
             if reg:
                 exp_m['region'] = reg
-            if f['default'] is None and (not quick or r.random() < 0.5):
+            if f['default'] is None and (not quick or r.random() < 0.5 or f.get('path') or f.get('alias')):
                 plan.append(('delete', pos, f['name'], exp_m,
                              edit_keys(doc, pos['path'], lambda kvs, i=i: kvs.__delitem__(i))))
+            if f.get('path'):
+                e = None if f['default'] is not None else exp_m
+                plan.append(('path-inner-absent', pos, f['name'], e,
+                             edit_keys(doc, pos['path'], lambda kvs, i=i: kvs[i].__setitem__(1, ['D', None, []]))))
+                continue
+            if f.get('alias'):
+                for a in f['alias'][1:]:
+                    plan.append(('other-alias', pos, [f['name'], a], None,
+                                 edit_keys(doc, pos['path'], lambda kvs, i=i, a=a: kvs[i].__setitem__(0, ['S', a]))))
+                continue
+            if raises:       # a re-spelled key is an unknown key for a class with v1_on_unknown_key='RAISE'
+                exp_m = {'kinds': ['U', 'M'], 'cls': cd['name']}
+                if reg:
+                    exp_m['region'] = reg
             sp = spellings(f['name'])
             cands = sorted({sp[c] for c in ('SNAKE', 'CAMEL', 'PASCAL', 'KEBAB', 'SCREAMING')} | {kk[1] + 'x', kk[1].swapcase(), kk[1][:-1]})
             cands = [c for c in cands if c and c != kk[1] and field_of_key({'fields': [g for g in cd['fields'] if g is not f]}, c) is None]
@@ -476,8 +440,13 @@ def make_plan(ctx, mb, r):
                 e = None if f['default'] is not None else dict(exp_m)
                 plan.append(('rekey', pos, [f['name'], kk[1], newk], e,
                              edit_keys(doc, pos['path'], lambda kvs, i=i, newk=newk: kvs[i].__setitem__(0, ['S', newk]))))
-        if not quick or r.random() < 0.4:
-            plan.append(('extra-key', pos, 'zzz_extra', None,
+        if not quick or r.random() < 0.4 or cd.get('meta'):
+            e_x = None
+            if raises:       # an unknown key: UnknownKeysError naming THIS class
+                e_x = {'kinds': ['U'], 'cls': cd['name']}
+                if reg:
+                    e_x['region'] = reg
+            plan.append(('extra-key', pos, 'zzz_extra', e_x,
                          edit_keys(doc, pos['path'], lambda kvs: kvs.append([['S', 'zzz_extra'], ['I', '1']]))))
     m['docs'] = [doc] + [p[4] for p in plan]
     return doc, plan
@@ -530,8 +499,11 @@ def run(ctx):
         for mi, (mb, res) in enumerate(zip(mbs, impl)):
             if res.get('setup_err') or res.get('gen_err') or mb.m.get('no_model'):
                 continue
-            pre = 'Definition ct : ctable := %s.\nDefinition tb : list oentry := %s.' % (
-                G.coq_ct(mb.m, res['keys']), G.coq_oracle([(l, o, v, a) for l, o, v, a in res['oracle']]))
+            try:
+                pre = 'Definition ct : ctable := %s.\nDefinition tb : list oentry := %s.' % (
+                    G.coq_ct(mb.m, res['keys']), G.coq_oracle([(l, o, v, a) for l, o, v, a in res['oracle']]))
+            except ValueError:
+                continue
             exs = ['case_load tb ct %d 0 %s' % (C2.BUDGET, G.coq_pv(d)) for d in mb.m['docs']]
             SH = 40
             for i in range(0, len(exs), SH):
@@ -584,6 +556,9 @@ def run(ctx):
                 bad = check_error(out, exp)
                 if bad:
                     reg = (exp or {}).get('region') or (None if shaped else 'F24')
+                    if reg == 'F24' and not (out.get('kind') == 'P' and out.get('cls') in
+                                             ([exp['f24_cls']] if exp and exp.get('f24_cls') else [c['name'] for c in m['classes']])):
+                        reg = None        # F24 covers only a ParseError naming the class being built: kind and class are checked
                     if reg and reg not in RESOLVED and ctx.is_open_region(REGION_ID[reg]) and out.get('lib') and out.get('renders'):
                         ctx.hist('known_region', reg)
                     else:
@@ -621,7 +596,7 @@ def check_error(out, exp):
         return 'str(e) raised %s (error %s)' % (out.get('render_err'), out['err'])
     if exp is None:
         return None
-    for e in [exp] + ([exp['alt']] if exp.get('alt') else []):
+    for e in [exp] + ([exp['alt']] if exp.get('alt') else []) + list(exp.get('alts') or []):
         if out.get('kind') in e['kinds']:
             if out.get('cls') != e.get('cls'):
                 continue
